@@ -310,6 +310,10 @@ fn record(agg: &mut Agg, prop: &str, profile: &str, job: usize, seed: u64, res: 
                 add_found(agg, "C18.server_hangs".into(), format!("the simulated server consumed {:.1} s CPU without finishing the run", cpu_s), jobs_case.cloned().unwrap_or(Value::Null));
             }
         }
+        JobResult::Died { detail } if detail.starts_with("HARNESS") => {
+            *agg.outcomes.entry("harness_gave_up".into()).or_insert(0) += 1;
+            add_found(agg, "HARNESS.panic".into(), detail, jobs_case.cloned().unwrap_or(Value::Null));
+        }
         JobResult::Died { detail } => {
             *agg.outcomes.entry("worker_died".into()).or_insert(0) += 1;
             if prop == "C06" {
